@@ -10,7 +10,7 @@ def run(ctx):
     obligations, discharged, names = core.standard_prelude(ctx, ["ZCV.Props.C02"])
     n_s, n_t = (1500, 50) if ctx.thorough() else (120, 25)
     cases = cfgstream.gen_cases(ctx, n_s, n_t, nfaults=(0, 0, 0, 1))
-    cfgstream.evaluate(ctx, cases)
+    cfgstream.evaluate(ctx, cases, with_spec=True)
     bad = []
     for c in cases:
         ctx.count("impl:" + c.out[0])
@@ -18,6 +18,11 @@ def run(ctx):
             continue
         if c.lines:
             ctx.nontriv((id(c.sd), tuple(c.lines)))
+        # ORACLE: the declarative `denote` of ZCV/Spec/Conforms.lean
+        if c.spec is not None and c.spec[0] == "accept" and not cfgrun.match_val(c.spec[1], c.cfg):
+            ctx.violate("accepted text yields a value tree different from the one the schema defines (denote)",
+                        dict(c.replay(), impl=cfgrun.describe(c.cfg), expected=c.spec[1]), signature="C02:value-tree")
+            continue
         if c.model[0] != "ok":
             continue      # accept/reject is C01's observable
         if not cfgrun.match_val(c.model[1], c.cfg):
